@@ -124,8 +124,9 @@ def _recon_traces(rep, quick, seed):
     if quick:
         random.Random(seed).shuffle(combos)
         combos = combos[:14]
-    for (s, npat, bs, ratio, mode) in combos:
-        rs = 7 + (seed % 5)
+    for ci, (s, npat, bs, ratio, mode) in enumerate(combos):
+        # seeds: zero (falsy), small, large, and a Generator object
+        rs = [0, 7 + (seed % 5), 2 ** 31 + 11, 1][ci % 4]
         # run A, then reset + rerun (must replay), recorded through the hook
         sink: list = []
         vt.set_sink(sink)
